@@ -48,6 +48,7 @@ COMMANDS = [
     ['explain'], ['explain', '--format', 'json', 'Netflix'], ['explain', '--amount', '12.5', 'SOME NEW MERCHANT XYZ'], ['explain', '--format', 'markdown', '-v', 'Netflix'],
     ['discover'], ['discover', '--format', 'json'], ['discover', '--format', 'csv'], ['diag'], ['diag', '--format', 'json'], ['inspect', '@DATA'],
     ['init'], ['init'], ['workflow'], ['reference'], ['reference', 'views'],
+    ['run', '-q', '--format', 'json'], ['run', '--migrate', '-q'], ['explain', '--view', 'Subs'], ['up', '-q', '--only', 'subs'], ['up', '-vv', '--format', 'summary'],
 ]
 
 
